@@ -71,7 +71,9 @@ ALSO_SERVES = {
     "C08": ["module:contracts.C16_focuslist"],      # container contents are MonitoredFocusLists: focus validity after edits
     "C12": ["urwid/display/_raw_display_base.py:Screen.parse_input", "urwid/display/_raw_display_base.py:Screen.get_available_raw_input"],
     "C01": ["urwid/widget/scrollable.py:Scrollable.render", "urwid/widget/scrollable.py:Scrollable._adjust_trim_top", "urwid/widget/scrollable.py:ScrollBar.render"],
-    "C07": ["module:contracts.C08_listbox"],        # ListBox focus handling
+    "C07": ["module:contracts.C08_listbox",        # ListBox focus handling
+            "module:contracts.C16_focuslist"],     # "insertions or deletions in the list": SimpleFocusListWalker is a MonitoredFocusList
+    "C10": ["module:contracts.C14_signals"],       # 'change' / 'postchange' are delivered by Signals.emit / _call_callback
     "C06": ["urwid/canvas.py:CompositeCanvas.trim#real-fields", "urwid/canvas.py:CompositeCanvas.trim_end#real-fields",
             # a cached (finalized) canvas refuses to be padded / trimmed, and padding a wrapper never writes to the lists it shares with the cached canvas
             "urwid/canvas.py:CompositeCanvas.pad_trim_left_right#real-fields", "urwid/canvas.py:CompositeCanvas.pad_trim_top_bottom#real-fields"],
